@@ -359,7 +359,7 @@ class OrderIndependence(Family):
 
     def gen(self, rng, tier):
         out = []
-        reps = 2 if tier == "quick" else 12
+        reps = 3 if tier == "quick" else 50
         for op in OPS:
             for _ in range(reps):
                 s = small_shape(rng, op.nmin)
@@ -527,7 +527,7 @@ class Constructors(Family):
 
     def gen(self, rng, tier):
         out = []
-        n = 25 if tier == "quick" else 250
+        n = 40 if tier == "quick" else 800
         for _ in range(n):
             s = small_shape(rng)
             cells = gen.all_subs(s)
